@@ -4,6 +4,7 @@ import (
 	"bytes"
 	"errors"
 	"fmt"
+	"sort"
 	"time"
 
 	"github.com/massnetorg/mass-core/blockchain"
@@ -664,6 +665,25 @@ func (s *TxStore) ExistsUtxo(tx mwdb.ReadTransaction, out *wire.OutPoint) (flags
 }
 
 // Rollback ...
+// sortByBlockPosition orders the transactions of a block record by their offset in the
+// block; transactions whose record cannot be read keep their place at the front.
+func sortByBlockPosition(nsTxRecords mwdb.Bucket, blk *blockRecord) error {
+	pos := make(map[wire.Hash]int, len(blk.transactions))
+	for i := range blk.transactions {
+		_, recVal, err := existsTxRecord(nsTxRecords, &blk.transactions[i], &blk.BlockMeta)
+		if err != nil {
+			return err
+		}
+		if _, txLoc, err := readTxRecordLoc(recVal); err == nil {
+			pos[blk.transactions[i]] = txLoc.TxStart
+		}
+	}
+	sort.SliceStable(blk.transactions, func(a, b int) bool {
+		return pos[blk.transactions[a]] < pos[blk.transactions[b]]
+	})
+	return nil
+}
+
 func (s *TxStore) Rollback(tx mwdb.DBTransaction, height uint64) error {
 	allMined, err := s.utxoStore.FetchAllMinedBalance(tx)
 	if err != nil {
@@ -699,6 +719,13 @@ func (s *TxStore) Rollback(tx mwdb.DBTransaction, height uint64) error {
 		}
 
 		heightsToRemove = append(heightsToRemove, rbBlock.Height)
+
+		// Transactions are undone in reverse block order. The record lists them in
+		// the order they were added, and a rescan can add a transaction after one
+		// that spends it (a second wallet imported later): order them by position.
+		if err = sortByBlockPosition(nsTxRecords, rbBlock); err != nil {
+			return err
+		}
 
 		for i := len(rbBlock.transactions) - 1; i >= 0; i-- {
 			txHash := &rbBlock.transactions[i]
